@@ -8,9 +8,10 @@ for d in seeded/*/; do
   WT=/tmp/corpwt_$$
   git -C /repo worktree add -q --detach "$WT" HEAD || exit 2
   ( cd "$WT" && git apply "/verif/$d/patch.diff" ) || { echo "$name: patch does not apply"; git -C /repo worktree remove --force "$WT"; continue; }
-  rm -f replays/$P-0-*.json
   VERIF_REPO="$WT" ./check "$P" > /tmp/corp_$$.log 2>&1
-  f=$(ls replays/$P-0-1.json 2>/dev/null)
+  # the first reported replay of this run (runs against a scratch copy write replays/scratch-<pid>-...)
+  f=$(grep -m1 -oE 'replay=[^ ]+' /tmp/corp_$$.log | sed 's/^replay=//')
+  [ -n "$f" ] && [ ! -f "$f" ] && f=""
   if [ -n "$f" ]; then
     mkdir -p "corpus/$P"
     python3 - "$f" "corpus/$P/$name.json" "$name" <<'PY'
